@@ -199,6 +199,11 @@ def main(run):
                 break
             if t == 0:
                 continue
+            if i % 3 == 2 and t != cfg["steps"] - 1 and (t % 9) not in (1, 2) and t != 3:
+                # HISTORY: on these streams the bounds / normalised views are read only now and then (at t = 1, 2, 3, 10, 11, 19, ...
+                # and after the last call): what a read returns must not depend on when the previous read happened
+                run.count("steps-without-any-read")
+                continue
             e = sc.e
             replay = {"cfg": cfg, "seed": seed, "step": t}
             # reads are pure: asking for normalised values / bounds / losses any number of times, in any order, changes nothing
